@@ -12,7 +12,7 @@ from .. import core, pipes, structural as st
 THEOREMS = ['Pk.C19.C19_rowwise_names_are_transform', 'Pk.C19.C19_one_per_column', 'Pk.C19.C19_delay_names',
             'Pk.C19.C19_delay_values', 'Pk.C19.C19_symbols_only', 'Pk.C19.C19_episode_name',
             'Pk.C19.C19_given_names', 'Pk.C19.C19_denotation', 'Pk.C19.C19_rowwise_natural',
-            'Pk.C19.C19_term_semantics', 'Pk.C19.C19_accepted_same_positions']
+            'Pk.C19.C19_term_semantics', 'Pk.C19.C19_accepted_same_positions', 'Pk.C19.C19_different_names_rejected']
 KINDS = ['poly', 'bilinear', 'const', 'delay', 'sk', 'angle', 'rbf', 'kernel']
 ORACLE_KINDS = ['poly', 'bilinear', 'const', 'delay', 'delay', 'angle']
 
@@ -207,8 +207,9 @@ def frame_order_probe(rng):
 
 
 def accept_cases(rng, n):
-    """(estimator fitted on names A or on an array) x (called with names B or an array): accepted or rejected?
-    observation on a real lifting function, model line for the driver"""
+    """(estimator fitted on names A, on a frame without valid names, or on an array) x (called with a frame named B, a
+    frame whose column names are not all strings, or a plain array): accepted or rejected?  observation on a real lifting
+    function, model line for the driver"""
     import pandas
     out = []
     for _ in range(n):
@@ -216,30 +217,42 @@ def accept_cases(rng, n):
         data = np.arange(1.0, 1.0 + 5 * k).reshape(5, k)
         fit_names = given_names(rng, k) if rng.random() < 0.8 else None
         r = rng.random()
+        call_kind = 'frame'
         if fit_names is None:
-            call_names = given_names(rng, k) if r < 0.5 else None
-        elif r < 0.25:
+            call_names = given_names(rng, k) if r < 0.4 else None
+            call_kind = 'frame' if r < 0.4 else ('array' if r < 0.7 else 'frame')
+        elif r < 0.2:
             call_names = list(fit_names)
-        elif r < 0.5:
+        elif r < 0.4:
             call_names = list(fit_names)
             rng.shuffle(call_names)
+        elif r < 0.55:
+            call_names, call_kind = None, 'array'
         elif r < 0.65:
-            call_names = None
+            call_names = None                      # a frame whose column names are not all strings
         elif r < 0.8:
             call_names = [nm + '_x' if j == 0 else nm for j, nm in enumerate(fit_names)]
         else:
             call_names = given_names(rng, k)
-        mk = lambda names: data if names is None else pandas.DataFrame(data, columns=names)
+
+        def mk(names, kind='frame'):
+            if kind == 'array':
+                return data
+            if names is None:
+                return pandas.DataFrame(data, columns=[7] + [f'c{j}' for j in range(1, k)])     # mixed names: none extracted
+            return pandas.DataFrame(data, columns=names)
+        fit_kind = 'frame' if (fit_names is not None or rng.random() < 0.5) else 'array'
         est = rng.choice([pykoop.PolynomialLiftingFn(order=2), pykoop.DelayLiftingFn(1, 0), pykoop.ConstantLiftingFn()])
-        est.fit(mk(fit_names), n_inputs=0, episode_feature=False)
+        est.fit(mk(fit_names, fit_kind), n_inputs=0, episode_feature=False)
         try:
-            est.transform(mk(call_names))
+            est.transform(mk(call_names, call_kind))
             accepted = True
         except ValueError:
             accepted = False
         tok = lambda names: 'n' if names is None else f"{len(names)} " + ' '.join(names)
-        out.append((f"accept {tok(fit_names)} {tok(call_names)}", accepted, {'fit_names': fit_names, 'call_names': call_names,
-                                                                             'estimator': type(est).__name__}))
+        ctok = 'a' if call_kind == 'array' else tok(call_names)
+        out.append((f"accept {tok(fit_names)} {ctok}", accepted, {'fit_names': fit_names, 'fit_input': fit_kind, 'call_names': call_names,
+                                                                  'call_input': call_kind, 'estimator': type(est).__name__}))
     return out
 
 
